@@ -303,8 +303,11 @@ func (w *World) kindSchema(kind string) *hcl.BodySchema {
 		for _, n := range w.rootNames {
 			s.Attributes = append(s.Attributes, hcl.AttributeSchema{Name: n})
 		}
-		s.Blocks = []hcl.BlockHeaderSchema{{Type: "b0"}, {Type: "b1", LabelNames: []string{"name"}}, {Type: "kv"}, dyn}
+		s.Blocks = []hcl.BlockHeaderSchema{{Type: "b0"}, {Type: "b1", LabelNames: []string{"name"}}, {Type: "kv"},
+			{Type: "tl"}, {Type: "ts"}, {Type: "tm", LabelNames: []string{"key"}}, dyn}
 		return s
+	case "tl", "ts", "tm":
+		return &hcl.BodySchema{Attributes: []hcl.AttributeSchema{{Name: "s"}}}
 	case "b0":
 		return &hcl.BodySchema{
 			Attributes: []hcl.AttributeSchema{{Name: "p"}, {Name: "q"}},
@@ -348,6 +351,9 @@ type catalog struct {
 	bodies []bodyRecipe
 	exprs  []exprRecipe
 }
+
+// emptyCatalog is used by cold cases, whose ops need no catalogue.
+var emptyCatalog = &catalog{}
 
 func (w *World) rootBody(i int) hcl.Body {
 	if i >= len(w.roots) {
@@ -418,7 +424,12 @@ func (w *World) halfSchema(i int) *hcl.BodySchema {
 
 func (w *World) nExprs() int { return len(w.cat.exprs) }
 
+var noExpr hcl.Expression = hcl.StaticExpr(cty.StringVal("no catalogue"), hcl.Range{})
+
 func (w *World) expr(i int) (hcl.Expression, string) {
+	if len(w.cat.exprs) == 0 {
+		return noExpr, "none"
+	}
 	i %= len(w.cat.exprs)
 	if w.pretouch {
 		return w.exprs[i], w.cat.exprs[i].name
@@ -489,6 +500,10 @@ func (w *World) buildSpec() hcldec.Spec {
 		"b0": &hcldec.BlockTupleSpec{TypeName: "b0", Nested: b0},
 		"b1": &hcldec.BlockObjectSpec{TypeName: "b1", LabelNames: []string{"name"}, Nested: b1},
 		"kv": &hcldec.BlockAttrsSpec{TypeName: "kv", ElementType: cty.String},
+		"tl": &hcldec.BlockListSpec{TypeName: "tl", Nested: hcldec.ObjectSpec{"s": &hcldec.AttrSpec{Name: "s", Type: cty.String}}},
+		"ts": &hcldec.BlockSetSpec{TypeName: "ts", Nested: hcldec.ObjectSpec{"s": &hcldec.AttrSpec{Name: "s", Type: cty.String}}},
+		"tm": &hcldec.BlockMapSpec{TypeName: "tm", LabelNames: []string{"key"}, Nested: hcldec.ObjectSpec{
+			"s": &hcldec.AttrSpec{Name: "s", Type: cty.String}, "key": &hcldec.BlockLabelSpec{Index: 0, Name: "key"}}},
 	}
 	if zzsim.Mix(c.SpecSeed, 77)%4 == 0 {
 		root["b0"] = &hcldec.ValidateSpec{Wrapped: root["b0"], Func: w.validateCB("validate_b0")}
